@@ -1116,12 +1116,16 @@ def run_oracle(spec, expect_supported=True):
             if gave_up and method == "integrate" and hk != "tuple":
                 # the stepper starts every integrate() call with first_step = ||H(0)||_F / 50 (150 for dopri5) and
                 # gives up when 0.1 * first_step <= eps * |t|
+                # (for a linear operator the norm is a stochastic estimate: read the step the stepper was really given)
                 H0 = H if user_ham is None else dense(user_ham(0.0))
-                if 0.1 * np.linalg.norm(H0, "fro") / 50 <= 2 * np.finfo(float).eps * abs(tclock):
+                fs = getattr(getattr(evo._stepper, "_integrator", None), "first_step", None)
+                if fs is None:
+                    fs = np.linalg.norm(H0, "fro") / 50
+                if 0.1 * fs <= 2 * np.finfo(float).eps * abs(tclock):
                     fails.append(("first_step_below_time_resolution",
                                   f"update_to({t!r}) left evo.t={tclock!r}: scipy's stepper gave up ('{gave_up[0]}'), its first "
-                                  f"step ||H||_F / 50 = {np.linalg.norm(H0, 'fro') / 50:.3e} is below the floating point spacing of "
-                                  f"the current time"))
+                                  f"step {fs:.3e} (||H||_F / 50 = {np.linalg.norm(H0, 'fro') / 50:.3e}) is below the floating point "
+                                  f"spacing of the current time"))
                     break
             fails.append(("clock", f"requested t={t}, evo.t={tclock}"))
         if p.shape != shape:
